@@ -7,10 +7,12 @@
 //! its inner future exactly once.
 use std::{
     cell::{Cell, RefCell},
+    collections::BTreeMap,
     future::Future,
     pin::Pin,
     rc::Rc,
-    task::{Context, Poll, Waker},
+    sync::{Arc, Condvar, Mutex, MutexGuard},
+    task::{Context, Poll, Wake, Waker},
 };
 
 use rand::{Rng, SeedableRng};
@@ -89,28 +91,79 @@ struct Inner {
     /// Tag given to tasks spawned by the director itself.
     spawn_tag: u64,
     last_tag: u64,
+    /// Simulated blocking tasks (OS threads under baton passing).
+    threads: BTreeMap<u64, ThreadSt>,
+    /// The blocking thread holding the baton (None = the runtime thread holds it).
+    running: Option<u64>,
+    /// Called when a blocking task has completely finished.
+    on_blocking_done: Option<Arc<dyn Fn(u64) + Send + Sync>>,
+}
+
+#[derive(Debug, Clone, Copy, PartialEq, Eq)]
+enum TState {
+    /// Wants the CPU (not started yet, preempted, or woken).
+    Ready,
+    Running,
+    /// Waits for its waker.
+    Blocked,
+}
+
+struct ThreadSt {
+    state: TState,
+    /// Woken while running: a following `Blocked` yield turns into `Ready`.
+    woken: bool,
+    tag: u64,
 }
 
 pub struct GateSched {
-    inner: RefCell<Inner>,
+    inner: Mutex<Inner>,
+    cv: Condvar,
+}
+
+impl GateSched {
+    fn lock(&self) -> MutexGuard<'_, Inner> {
+        self.inner.lock().unwrap()
+    }
+}
+
+struct BlockingWaker {
+    sched: Arc<GateSched>,
+    id: u64,
+}
+
+impl Wake for BlockingWaker {
+    fn wake(self: Arc<Self>) {
+        self.wake_by_ref();
+    }
+    fn wake_by_ref(self: &Arc<Self>) {
+        let mut i = self.sched.lock();
+        if let Some(t) = i.threads.get_mut(&self.id) {
+            match t.state {
+                TState::Blocked => t.state = TState::Ready,
+                TState::Running => t.woken = true,
+                TState::Ready => {}
+            }
+        }
+    }
 }
 
 impl verif::Scheduler for GateSched {
     fn new_task(&self) -> u64 {
-        let mut i = self.inner.borrow_mut();
+        let mut i = self.lock();
         i.next_id += 1;
         i.live += 1;
         i.spawned += 1;
-        let tag = match i.current.and_then(|c| i.tags.get(&c).copied()) {
-            Some(t) => t,
-            None => i.spawn_tag,
+        let tag = match (i.running.and_then(|r| i.threads.get(&r).map(|t| t.tag)), i.current.and_then(|c| i.tags.get(&c).copied())) {
+            (Some(t), _) => t,
+            (None, Some(t)) => t,
+            (None, None) => i.spawn_tag,
         };
         let id = i.next_id;
         i.tags.insert(id, tag);
         id
     }
     fn poll_gate(&self, id: u64, waker: &Waker) -> bool {
-        let mut i = self.inner.borrow_mut();
+        let mut i = self.lock();
         if i.granted == Some(id) {
             i.granted = None;
             i.ready.retain(|(x, _)| *x != id);
@@ -129,11 +182,11 @@ impl verif::Scheduler for GateSched {
         false
     }
     fn after_poll(&self, _id: u64, _done: bool) {
-        self.inner.borrow_mut().current = None;
+        self.lock().current = None;
         CUR_TAG.with(|c| c.set(0));
     }
     fn task_dropped(&self, id: u64) {
-        let mut i = self.inner.borrow_mut();
+        let mut i = self.lock();
         i.live -= 1;
         i.tags.remove(&id);
         i.ready.retain(|(x, _)| *x != id);
@@ -141,7 +194,82 @@ impl verif::Scheduler for GateSched {
             i.granted = None;
         }
     }
+
+    fn new_blocking(&self) -> u64 {
+        let mut i = self.lock();
+        i.next_id += 1;
+        i.live += 1;
+        i.spawned += 1;
+        let tag = match (i.running.and_then(|r| i.threads.get(&r).map(|t| t.tag)), i.current.and_then(|c| i.tags.get(&c).copied())) {
+            (Some(t), _) => t,
+            (None, Some(t)) => t,
+            (None, None) => i.spawn_tag,
+        };
+        let id = i.next_id;
+        i.threads.insert(id, ThreadSt { state: TState::Ready, woken: false, tag });
+        id
+    }
+
+    fn blocking_wait_grant(&self, id: u64) {
+        let mut i = self.lock();
+        while i.running != Some(id) {
+            i = self.cv.wait(i).unwrap();
+        }
+    }
+
+    fn blocking_yield(&self, id: u64, how: verif::Yield) {
+        let mut i = self.lock();
+        debug_assert_eq!(i.running, Some(id));
+        match how {
+            verif::Yield::Done => {
+                i.threads.remove(&id);
+                i.live -= 1;
+                // The callback runs while this thread still holds the baton (the runtime thread
+                // may wake up spuriously from its condvar wait as soon as `running` is cleared).
+                let cb = i.on_blocking_done.clone();
+                drop(i);
+                if let Some(cb) = cb {
+                    cb(id);
+                }
+                let mut i = self.lock();
+                i.running = None;
+                drop(i);
+                self.cv.notify_all();
+                return;
+            }
+            verif::Yield::Preempted => {
+                let t = i.threads.get_mut(&id).unwrap();
+                t.state = TState::Ready;
+            }
+            verif::Yield::Blocked => {
+                let t = i.threads.get_mut(&id).unwrap();
+                t.state = if t.woken { TState::Ready } else { TState::Blocked };
+            }
+        }
+        i.threads.get_mut(&id).unwrap().woken = false;
+        i.running = None;
+        self.cv.notify_all();
+        while i.running != Some(id) {
+            i = self.cv.wait(i).unwrap();
+        }
+    }
+
+    fn blocking_waker(&self, id: u64) -> Waker {
+        // `self` is always reached through the `Arc` installed in the thread-local.
+        // Blocking threads are not the thread the simulation runs on: look the `Arc` up by address.
+        let me = SELF_ARC
+            .with(|s| s.borrow().clone())
+            .or_else(|| REGISTRY.lock().unwrap().get(&(self as *const GateSched as usize)).cloned())
+            .expect("scheduler arc");
+        Waker::from(Arc::new(BlockingWaker { sched: me, id }))
+    }
 }
+
+thread_local! {
+    static SELF_ARC: RefCell<Option<Arc<GateSched>>> = const { RefCell::new(None) };
+}
+/// Live schedulers by address (several worker threads may simulate in one process).
+static REGISTRY: Mutex<BTreeMap<usize, Arc<GateSched>>> = Mutex::new(BTreeMap::new());
 
 /// Source of scheduler picks.
 pub enum PickSource {
@@ -151,7 +279,7 @@ pub enum PickSource {
 }
 
 pub struct Sched {
-    pub gate: Rc<GateSched>,
+    pub gate: Arc<GateSched>,
     pub policy: Cell<Policy>,
     src: RefCell<PickSource>,
 }
@@ -167,8 +295,9 @@ fn mix(h: u64, v: u64) -> u64 {
 impl Sched {
     pub fn new(seed: u64, policy: Policy, record: bool) -> Self {
         Self {
-            gate: Rc::new(GateSched {
-                inner: RefCell::new(Inner {
+            gate: Arc::new(GateSched {
+                cv: Condvar::new(),
+                inner: Mutex::new(Inner {
                     next_id: 0,
                     ready: vec![],
                     granted: None,
@@ -183,6 +312,9 @@ impl Sched {
                     current: None,
                     spawn_tag: 0,
                     last_tag: 0,
+                    threads: BTreeMap::new(),
+                    running: None,
+                    on_blocking_done: None,
                 }),
             }),
             policy: Cell::new(policy),
@@ -198,31 +330,32 @@ impl Sched {
 
     /// Tag for tasks spawned by the director from now on.
     pub fn set_spawn_tag(&self, tag: u64) {
-        let mut i = self.gate.inner.borrow_mut();
+        let mut i = self.gate.lock();
         i.current = None;
         i.spawn_tag = tag;
     }
     /// Owner tag of the task which made the last step.
     pub fn last_tag(&self) -> u64 {
-        self.gate.inner.borrow().last_tag
+        self.gate.lock().last_tag
     }
     pub fn ready_len(&self) -> usize {
-        self.gate.inner.borrow().ready.len()
+        let i = self.gate.lock();
+        i.ready.len() + i.threads.values().filter(|t| t.state == TState::Ready).count()
     }
     pub fn live(&self) -> i64 {
-        self.gate.inner.borrow().live
+        self.gate.lock().live
     }
     pub fn steps(&self) -> u64 {
-        self.gate.inner.borrow().steps
+        self.gate.lock().steps
     }
     pub fn spawned(&self) -> u64 {
-        self.gate.inner.borrow().spawned
+        self.gate.lock().spawned
     }
     pub fn fingerprint(&self) -> u64 {
-        self.gate.inner.borrow().sched_fp
+        self.gate.lock().sched_fp
     }
     pub fn picks(&self) -> Vec<u32> {
-        self.gate.inner.borrow().picks.clone()
+        self.gate.lock().picks.clone()
     }
 
     fn choose(&self, n: usize, last_pos: Option<usize>) -> usize {
@@ -257,31 +390,67 @@ impl Sched {
         }
     }
 
-    /// Lets one ready task make one step. Returns false if nothing is ready.
+    /// Lets one ready task (or simulated blocking thread) make one step.
+    /// Returns false if nothing is ready.
     pub async fn step(&self) -> bool {
-        let w = {
-            let i = self.gate.inner.borrow_mut();
-            let n = i.ready.len();
+        enum Pick {
+            Task(Waker),
+            Thread(u64),
+        }
+        let pick = {
+            let i = self.gate.lock();
+            let threads: Vec<u64> = i.threads.iter().filter(|(_, t)| t.state == TState::Ready).map(|(id, _)| *id).collect();
+            let nt = i.ready.len();
+            let n = nt + threads.len();
             if n == 0 {
                 return false;
             }
-            let last_pos = i.last.and_then(|l| i.ready.iter().position(|(x, _)| *x == l));
+            let last_pos = i.last.and_then(|l| i.ready.iter().position(|(x, _)| *x == l).or_else(|| threads.iter().position(|x| *x == l).map(|p| nt + p)));
             drop(i);
             let k = self.choose(n, last_pos);
-            let mut i = self.gate.inner.borrow_mut();
-            let (id, w) = i.ready.remove(k);
-            i.granted = Some(id);
-            i.last = Some(id);
+            let mut i = self.gate.lock();
             i.steps += 1;
-            i.sched_fp = mix(i.sched_fp, id);
             if i.record {
                 i.picks.push(k as u32);
             }
-            w
+            if k < nt {
+                let (id, w) = i.ready.remove(k);
+                i.granted = Some(id);
+                i.last = Some(id);
+                i.sched_fp = mix(i.sched_fp, id);
+                Pick::Task(w)
+            } else {
+                let id = threads[k - nt];
+                i.last = Some(id);
+                i.sched_fp = mix(i.sched_fp, id);
+                let tag = i.threads.get(&id).map(|t| t.tag).unwrap_or(0);
+                i.last_tag = tag;
+                Pick::Thread(id)
+            }
         };
-        w.wake();
+        match pick {
+            Pick::Task(w) => w.wake(),
+            Pick::Thread(id) => {
+                // Hand the baton to the thread and block this (the runtime) thread until it
+                // comes back.
+                let mut i = self.gate.lock();
+                if let Some(t) = i.threads.get_mut(&id) {
+                    t.state = TState::Running;
+                }
+                i.running = Some(id);
+                self.gate.cv.notify_all();
+                while i.running.is_some() {
+                    i = self.gate.cv.wait(i).unwrap();
+                }
+            }
+        }
         wait_park().await;
         true
+    }
+
+    /// Registers a callback invoked (on the finishing thread) when a blocking task is done.
+    pub fn on_blocking_done(&self, cb: Arc<dyn Fn(u64) + Send + Sync>) {
+        self.gate.lock().on_blocking_done = Some(cb);
     }
 
     /// Lets tokio poll everything that has been woken (by the director itself, e.g. by sending
@@ -318,6 +487,8 @@ pub fn run_sim<T, Fut: Future<Output = T>>(
         .build()
         .expect("runtime");
     verif::install_scheduler(Some(sched.gate.clone()));
+    SELF_ARC.with(|x| *x.borrow_mut() = Some(sched.gate.clone()));
+    REGISTRY.lock().unwrap().insert(Arc::as_ptr(&sched.gate) as usize, sched.gate.clone());
     let s2 = sched.clone();
     let out = rt.block_on(async move {
         // Let tokio settle once so that `wait_park` has a baseline.
@@ -334,5 +505,7 @@ pub fn run_sim<T, Fut: Future<Output = T>>(
         Ok(())
     };
     verif::install_scheduler(None);
+    SELF_ARC.with(|x| *x.borrow_mut() = None);
+    REGISTRY.lock().unwrap().remove(&(Arc::as_ptr(&sched.gate) as usize));
     (out, res)
 }
